@@ -11,6 +11,7 @@ import (
 
 	logging "github.com/ipfs/go-log/v2"
 	"github.com/ipld/go-storethehash/store/types"
+	"github.com/ipld/go-storethehash/store/vhook"
 )
 
 var log = logging.Logger("storethehash/index")
@@ -103,6 +104,7 @@ func (index *Index) garbageCollector(interval, timeLimit time.Duration) {
 // gc searches for and removes stale index files. Returns the number of unused
 // index files that were removed and the number of freeFiles that were found.
 func (index *Index) gc(ctx context.Context, scanFree bool) (int64, int, error) {
+	vhook.Point("igc.begin")
 	var emptied int
 	var reclaimed int64
 	var err error
@@ -144,6 +146,7 @@ func (index *Index) gc(ctx context.Context, scanFree bool) (int64, int, error) {
 	for fileNum := firstFileNum; fileNum != lastFileNum; {
 		indexPath := indexFileName(index.basePath, fileNum)
 
+		vhook.Point("igc.file")
 		stale, err := index.reapIndexRecords(ctx, fileNum, indexPath)
 		if err != nil {
 			if err == context.DeadlineExceeded {
@@ -159,10 +162,12 @@ func (index *Index) gc(ctx context.Context, scanFree bool) (int64, int, error) {
 			// If this is first index file, then update header and remove file.
 			if header.FirstFile == fileNum {
 				header.FirstFile++
+				vhook.Point("igc.header")
 				err = writeHeader(index.headerPath, header)
 				if err != nil {
 					return 0, 0, err
 				}
+				vhook.Point("igc.unlink")
 				err = os.Remove(indexPath)
 				if err != nil {
 					return 0, 0, err
@@ -216,6 +221,7 @@ func (index *Index) truncateFreeFiles(ctx context.Context) (int64, int, error) {
 		}
 	}
 
+	vhook.Point("igc.free.scanned")
 	var emptied int
 	var reclaimed int64
 	basePath := index.basePath
@@ -243,9 +249,11 @@ func (index *Index) truncateFreeFiles(ctx context.Context) (int64, int, error) {
 		// If this is first index file, then update header and remove file.
 		if header.FirstFile == fileNum {
 			header.FirstFile++
+			vhook.Point("igc.free.header")
 			if err = writeHeader(index.headerPath, header); err != nil {
 				return 0, 0, err
 			}
+			vhook.Point("igc.free.unlink")
 			if err = os.Remove(indexPath); err != nil {
 				return 0, 0, err
 			}
@@ -258,6 +266,7 @@ func (index *Index) truncateFreeFiles(ctx context.Context) (int64, int, error) {
 			continue
 		}
 
+		vhook.Point("igc.free.truncate")
 		err = os.Truncate(indexPath, 0)
 		if err != nil {
 			log.Errorw("Error truncating index file", "err", err, "file", indexPath)
@@ -322,6 +331,7 @@ func (index *Index) reapIndexRecords(ctx context.Context, fileNum uint32, indexP
 					freeAt = pos
 					freeAtSize = size
 				} else {
+					vhook.Point("igc.reap.merge")
 					binary.LittleEndian.PutUint32(sizeBuf, freeAtSize|deletedBit)
 					_, err = file.WriteAt(sizeBuf, freeAt)
 					if err != nil {
@@ -356,6 +366,7 @@ func (index *Index) reapIndexRecords(ctx context.Context, fileNum uint32, indexP
 		if err != nil {
 			return false, err
 		}
+		vhook.Point("igc.reap.busyChecked")
 		if inUse {
 			// Record is in use.
 			busyAt = pos
@@ -379,6 +390,7 @@ func (index *Index) reapIndexRecords(ctx context.Context, fileNum uint32, indexP
 			// Mark the record as deleted by setting the highest bit in the
 			// size. This assumes that the size of an individual index record
 			// will always be less than 2^30.
+			vhook.Point("igc.reap.mark")
 			binary.LittleEndian.PutUint32(sizeBuf, freeAtSize|deletedBit)
 			if _, err = file.WriteAt(sizeBuf, freeAt); err != nil {
 				return false, fmt.Errorf("cannot write to index file %s: %w", file.Name(), err)
@@ -394,6 +406,7 @@ func (index *Index) reapIndexRecords(ctx context.Context, fileNum uint32, indexP
 	// If there is a span of free records at end of file, truncate file.
 	if freeAt > busyAt {
 		// End of primary is free.
+		vhook.Point("igc.reap.truncate")
 		if err = file.Truncate(freeAt); err != nil {
 			return false, fmt.Errorf("failed to truncate index file: %w", err)
 		}
